@@ -20,12 +20,14 @@ theorem same_group_iff (r₁ r₂ : RawRec) :
     keyOf r₁ = keyOf r₂ ↔
       r₁.code = r₂.code ∧ r₁.nkd = r₂.nkd ∧ r₁.errorModel = r₂.errorModel ∧ r₁.decoder = r₂.decoder ∧
       r₁.p = r₂.p ∧ r₁.T.getD 1 = r₂.T.getD 1 ∧ r₁.q.getD 0 = r₂.q.getD 0 := by
-  sorry
+  simp only [keyOf, Key.mk.injEq]
 
 /-- output keys are exactly the distinct keys of the input, each once -/
 theorem merge_keys (ls : List (List RawRec)) (gs : List Group) (h : merge ls = .ok gs) :
     (gs.map (·.key)).Nodup ∧ ∀ k, k ∈ gs.map (·.key) ↔ ∃ r ∈ ls.flatten, keyOf r = k := by
-  sorry
+  rw [merge_eq_finish] at h
+  have hI := foldRecs_inv (finish_ok h).1
+  exact ⟨hI.nodup, hI.keys⟩
 
 /-- **conservation**: per group every scalar is the sum over the group's records -/
 theorem merge_conserves (ls : List (List RawRec)) (gs : List Group) (h : merge ls = .ok gs)
@@ -34,7 +36,10 @@ theorem merge_conserves (ls : List (List RawRec)) (gs : List Group) (h : merge l
     g.sums.nRun = (rs.map (·.nRun)).sum ∧ g.sums.nSuccess = (rs.map (·.nSuccess)).sum ∧
     g.sums.nFail = (rs.map (·.nFail)).sum ∧ g.sums.ewTotal = (rs.map (·.ewTotal)).sum ∧
     g.sums.wall = (rs.map (·.wall)).sum := by
-  sorry
+  rw [merge_eq_finish] at h
+  have hG := (foldRecs_inv (finish_ok h).1).grp g hg
+  intro rs
+  exact ⟨hG.nRun, hG.nSuccess, hG.nFail, hG.ewTotal, hG.wall⟩
 
 /-- conservation of the arrays: `None` iff absent in every record of the group, else element-wise
     sums of equal-length arrays -/
@@ -45,7 +50,14 @@ theorem merge_conserves_lc (ls : List (List RawRec)) (gs : List Group) (h : merg
     (∀ v, g.lc = some v →
       (∀ r ∈ rs, ∃ w, arrOf r.lc = some w ∧ w.length = v.length) ∧
       ∀ i, i < v.length → v[i]? = some ((rs.map fun r => ((arrOf r.lc).getD []).getD i 0).sum)) := by
-  sorry
+  rw [merge_eq_finish] at h
+  have hA := ((foldRecs_inv (finish_ok h).1).grp g hg).lc
+  intro rs
+  refine ⟨fun hn r hr => hA.1 hn _ (List.mem_map.2 ⟨r, hr, rfl⟩), fun v hv => ?_⟩
+  obtain ⟨hm, hi⟩ := hA.2 v hv
+  refine ⟨fun r hr => hm _ (List.mem_map.2 ⟨r, hr, rfl⟩), fun i hi' => ?_⟩
+  rw [hi i hi', List.map_map]
+  rfl
 theorem merge_conserves_cv (ls : List (List RawRec)) (gs : List Group) (h : merge ls = .ok gs)
     (g : Group) (hg : g ∈ gs) :
     let rs := ls.flatten.filter (fun r => keyOf r = g.key)
@@ -53,13 +65,22 @@ theorem merge_conserves_cv (ls : List (List RawRec)) (gs : List Group) (h : merg
     (∀ v, g.cv = some v →
       (∀ r ∈ rs, ∃ w, arrOf r.cv = some w ∧ w.length = v.length) ∧
       ∀ i, i < v.length → v[i]? = some ((rs.map fun r => ((arrOf r.cv).getD []).getD i 0).sum)) := by
-  sorry
+  rw [merge_eq_finish] at h
+  have hA := ((foldRecs_inv (finish_ok h).1).grp g hg).cv
+  intro rs
+  refine ⟨fun hn r hr => hA.1 hn _ (List.mem_map.2 ⟨r, hr, rfl⟩), fun v hv => ?_⟩
+  obtain ⟨hm, hi⟩ := hA.2 v hv
+  refine ⟨fun r hr => hm _ (List.mem_map.2 ⟨r, hr, rfl⟩), fun i hi' => ?_⟩
+  rw [hi i hi', List.map_map]
+  rfl
 
 /-- rates are recomputed from the sums -/
 theorem merge_rates (g : Group) (n : Int) (rest : List (Option Int)) (hn : g.key.nkd = some n :: rest) :
     lfr g = (g.sums.nFail : Rat) / (g.sums.nRun : Rat) ∧
     per g = (g.sums.ewTotal : Rat) / (n : Rat) / (g.key.T : Rat) / (g.sums.nRun : Rat) := by
-  sorry
+  refine ⟨rfl, ?_⟩
+  unfold per
+  rw [hn]
 
 /-- **mismatch ⇒ error, symmetric**: a ValueError is raised iff two records of one group differ in
     the presence or length of an array — a condition that does not depend on order or partition -/
@@ -67,27 +88,37 @@ theorem mismatch_iff (ls : List (List RawRec)) :
     merge ls = .error .value ↔
       ∃ r₁ ∈ ls.flatten, ∃ r₂ ∈ ls.flatten, keyOf r₁ = keyOf r₂ ∧
         (shape (arrOf r₁.lc) ≠ shape (arrOf r₂.lc) ∨ shape (arrOf r₁.cv) ≠ shape (arrOf r₂.cv)) := by
-  sorry
+  rw [merge_eq_finish, finish_error_value, foldRecs_error_iff]
+  rfl
 
 /-- **partition insensitivity**: only the concatenation of the argument lists matters -/
 theorem merge_partition (ls : List (List RawRec)) : merge ls = merge [ls.flatten] := by
-  sorry
+  simp only [merge, List.flatten_cons, List.flatten_nil, List.append_nil]
 
 /-- **order insensitivity**: permuting the records permutes the output groups, nothing else
     (errors included) -/
 theorem merge_perm (l₁ l₂ : List RawRec) (hp : l₁.Perm l₂) : SameUpToOrder (merge [l₁]) (merge [l₂]) := by
-  sorry
+  rw [merge_eq_finish, merge_eq_finish]
+  simp only [List.flatten_cons, List.flatten_nil, List.append_nil]
+  exact (foldRecs_perm hp).finish
 
 /-- **merge of merges**: merging two merge results equals merging all records at once -/
 theorem merge_nested (l₁ l₂ : List RawRec) (g₁ g₂ : List Group)
     (h₁ : merge [l₁] = .ok g₁) (h₂ : merge [l₂] = .ok g₂) :
     SameUpToOrder (merge [g₁.map Group.toRaw, g₂.map Group.toRaw]) (merge [l₁ ++ l₂]) := by
-  sorry
+  rw [merge_eq_finish] at h₁ h₂
+  rw [merge_eq_finish, merge_eq_finish]
+  simp only [List.flatten_cons, List.flatten_nil, List.append_nil] at h₁ h₂ ⊢
+  exact (foldRecs_nested (finish_ok h₁).1 (finish_ok h₂).1).finish
 
 /-- idempotence: re-merging a merge result returns it unchanged (order included) -/
 theorem merge_idempotent (l : List RawRec) (g : List Group) (h : merge [l] = .ok g) :
     merge [g.map Group.toRaw] = .ok g := by
-  sorry
+  rw [merge_eq_finish] at h ⊢
+  simp only [List.flatten_cons, List.flatten_nil, List.append_nil] at h ⊢
+  obtain ⟨hf, hall⟩ := finish_ok h
+  rw [foldRecs_toRaw_of_fold hf]
+  simp [finish, hall]
 
 /-- **representation independence**: the result depends on a record only through its key (after
     defaults), its five scalars and its two arrays-as-tuples.  Hence lists-for-tuples (JSON round
@@ -96,7 +127,7 @@ theorem merge_repr_independent (f : RawRec → RawRec)
     (hf : ∀ r, keyOf (f r) = keyOf r ∧ sumsOf (f r) = sumsOf r ∧
       arrOf (f r).lc = arrOf r.lc ∧ arrOf (f r).cv = arrOf r.cv)
     (ls : List (List RawRec)) : merge (ls.map (·.map f)) = merge ls := by
-  sorry
+  rw [merge_eq_finish, merge_eq_finish, ← List.map_flatten, foldRecs_map_congr f hf]
 
 /-- JSON form of a record: every tuple becomes a list -/
 def toJson (r : RawRec) : RawRec :=
@@ -104,7 +135,10 @@ def toJson (r : RawRec) : RawRec :=
            lc := match r.lc with | .arr _ v => .arr true v | x => x
            cv := match r.cv with | .arr _ v => .arr true v | x => x }
 theorem merge_json_roundtrip (ls : List (List RawRec)) : merge (ls.map (·.map toJson)) = merge ls := by
-  sorry
+  apply merge_repr_independent
+  intro r
+  rcases r with ⟨_, _, _, _, _, _, _, _, _, _, _, _, _, lc, cv⟩
+  cases lc <;> cases cv <;> exact ⟨rfl, rfl, rfl, rfl⟩
 
 /-- a legacy record (no time_steps / measurement_error_probability / array fields) -/
 def fillDefaults (r : RawRec) : RawRec :=
@@ -112,7 +146,10 @@ def fillDefaults (r : RawRec) : RawRec :=
            lc := match r.lc with | .absent => .null | x => x
            cv := match r.cv with | .absent => .null | x => x }
 theorem merge_legacy (ls : List (List RawRec)) : merge (ls.map (·.map fillDefaults)) = merge ls := by
-  sorry
+  apply merge_repr_independent
+  intro r
+  rcases r with ⟨_, _, _, _, _, _, _, _, _, _, _, _, _, lc, cv⟩
+  cases lc <;> cases cv <;> exact ⟨rfl, rfl, rfl, rfl⟩
 
 /-! non-vacuity: two groups, arrays, a legacy record -/
 def exA : RawRec := ⟨"c", [some 5, some 1, some 3], false, "e", "d", 1/10, some 1, some 0, 10, 7, 3, 12, 1/2,
